@@ -79,7 +79,7 @@ def run(ctx):
                 jobs.append(with_nv(b, nv))
     # longer histories over the full domain: random behaviours, each replayed with its final observation
     nsim = 0
-    s = ctx.tlc('DBRP', f'DBRP.Sim_{tier}.cfg', timeout=900, simulate={'num': 3000 if tier == 'quick' else 20000},
+    s = ctx.tlc('DBRP', f'DBRP.Sim_{tier}.cfg', timeout=900, simulate={'num': max(1, (4000 if tier == 'quick' else 20000) // vlib.NCPU)},   # TLC's num is per worker
                 depth=7 if tier == 'quick' else 8, workers=vlib.NCPU, tag='sim')
     if s.timed_out or not s.ok:
         raise vlib.Inconclusive('DBRP simulate run failed: ' + s.stdout[-1500:])
@@ -131,5 +131,5 @@ META = {
     'design_ref': '5.18',
     'note': 'Trusted: TLC, the driver\'s contract predicate over FindMany results, a fixed in-memory bucket service, inmem kv store.',
     'technique': 'TLA+ spec (DBRP.tla) + TLC exhaustive + replay of every TLC history on the real dbrp service',
-    'quick_s': 170, 'thorough_s': 1500,
+    'quick_s': 150, 'thorough_s': 1500,
 }
